@@ -29,9 +29,21 @@
                                                                cached — the file is not looked at — else from the file.
                                                                Filling and eviction are steps of their own (OpFill/OpEvict):
                                                                a real read is some fills plus the pure `read`
-     Core::close + Tree::new                      boot         manifest loaded, WAL replayed into one memtable, seq numbers
-                                                               max(last_sequence, replayed), fresh oracle; the cache object
-                                                               may survive (the harness re-uses its Options)
+     Core::close + Tree::new                      boot         manifest loaded; recovery (`recover`, shared with the RReplay
+       Core::replay_wal_with_repair_pieces                     step of restore and with open_ckpt): ONE memtable per WAL segment
+       wal/recovery.rs replay_wal                              at or above the manifest's log number, in segment order, EMPTY
+                                                               segments give none; every memtable BUT THE LAST is flushed to a
+                                                               table (id = `next_table_id()`, manifest: table added, log_number :=
+                                                               its segment + 1, last_sequence raised, manifest written); the last
+                                                               is the active memtable and is paired with the WRITER's segment (the
+                                                               highest one, which may be a later, empty segment).  The segment
+                                                               files stay: a later reopen replays what is at or above the NEW log
+                                                               number segment by segment again, so d_wal keeps the segments (those
+                                                               below the new log number are dead and dropped from the model).
+                                                               seq numbers max(last_sequence, replayed), fresh oracle; the cache
+                                                               object may survive (the harness re-uses its Options).
+                                                               NOT modelled: the splitting of ONE over-full segment into several
+                                                               memtables (ArenaFull; `segment_complete = false`)
      DatabaseCheckpoint::create_checkpoint        checkpoint   flush_all_memtables FIRST; then the tables of the in-memory
                                                                manifest, an EMPTY wal directory, the manifest directory
      Tree::restore_from_checkpoint                restore      fold of `rstep_apply` over the generated step list
@@ -257,14 +269,50 @@ Definition fill (s : kstate) (t : N) (i : nat) : kstate :=
 Definition evict (s : kstate) (t : N) (i : nat) : kstate := set_bcache s (bcdel (t, i) (s_cache s)).
 
 (* ---- open ---- *)
+Definition empty_disk : disk :=
+  {| d_tables := []; d_man := {| mf_tables := []; mf_next := 1; mf_log := 0; mf_seq := 0 |}; d_wal := [] |}.
+(* the store on an empty directory (= boot of empty_disk: Checkpoint_proofs.v kinit_boot) *)
+Definition kinit : kstate :=
+  {| s_disk := {| d_tables := []; d_man := d_man empty_disk; d_wal := [(0, [])] |};
+     s_ckpts := [];
+     s_mem := {| m_man := d_man empty_disk; m_active := []; m_active_wal := 0; m_imms := []; m_wal := 0 |};
+     s_cache := [];
+     s_sq := {| q_visible := 0; q_logseq := 1; q_floor := 0 |};
+     s_orc := {| o_recent := []; o_kept := 0 |};
+     s_view := [] |}.
+
+Definition wal_ensure (w : N) (wal : list (N * list cver)) : list (N * list cver) :=
+  match aget w wal with Some _ => wal | None => wal ++ [(w, [])] end.
+Definition seg_live (lo : N) (e : N * list cver) : bool := N.leb lo (fst e).
+Definition seg_nonempty (e : N * list cver) : bool := match snd e with [] => false | _ => true end.
+(* the memtables recovery builds: one per non-empty segment at or above the log number, in segment order *)
+Definition replayed (lo : N) (wal : list (N * list cver)) : list (N * list cver) := filter seg_nonempty (filter (seg_live lo) wal).
+(* flush_immutable_to_sst_with_log_number from recovery's callback (segment_complete) *)
+Definition recov_flush (tm : list (N * tfile) * manifest) (seg : N * list cver) : list (N * tfile) * manifest :=
+  let man := snd tm in
+  let f := mk_blocks bsz (snd seg) in
+  (fst tm ++ [(mf_next man, f)],
+   {| mf_tables := mf_tables man ++ [(mf_next man, length f)]; mf_next := N.succ (mf_next man);
+      mf_log := N.succ (fst seg); mf_seq := N.max (mf_seq man) (max_seq (snd seg)) |}).
+(* every memtable but the last is flushed; the last one is returned *)
+Fixpoint recover (ts : list (N * tfile)) (man : manifest) (segs : list (N * list cver)) : (list (N * tfile) * manifest) * list cver :=
+  match segs with
+  | [] => ((ts, man), [])
+  | e :: r => match r with
+              | [] => ((ts, man), snd e)
+              | _ :: _ => recover (fst (recov_flush (ts, man) e)) (snd (recov_flush (ts, man) e)) r
+              end
+  end.
 Definition boot (keep : cache) (d : disk) (cks : list (N * ckpt)) (g : gview) : kstate :=
-  let segs := filter (fun e => N.leb (mf_log (d_man d)) (fst e)) (d_wal d) in
-  let all := flat_map snd segs in
-  let w := N.max (mf_log (d_man d)) (nmax (map fst (d_wal d))) in
-  let vis := N.max (mf_seq (d_man d)) (max_seq all) in
-  {| s_disk := {| d_tables := d_tables d; d_man := d_man d; d_wal := [(w, all)] |};
+  let lo := mf_log (d_man d) in
+  let r := recover (d_tables d) (d_man d) (replayed lo (d_wal d)) in
+  let man := snd (fst r) in
+  (* the WAL writer: Wal::open_with_min_log_number with the log number the manifest had when it was LOADED *)
+  let w := N.max lo (nmax (map fst (d_wal d))) in
+  let vis := N.max (mf_seq (d_man d)) (max_seq (flat_map snd (filter (seg_live lo) (d_wal d)))) in
+  {| s_disk := {| d_tables := fst (fst r); d_man := man; d_wal := wal_ensure w (filter (seg_live (mf_log man)) (d_wal d)) |};
      s_ckpts := cks;
-     s_mem := {| m_man := d_man d; m_active := all; m_active_wal := w; m_imms := []; m_wal := w |};
+     s_mem := {| m_man := man; m_active := snd r; m_active_wal := w; m_imms := []; m_wal := w |};
      s_cache := keep;
      s_sq := {| q_visible := vis; q_logseq := N.succ vis; q_floor := vis |};
      s_orc := {| o_recent := []; o_kept := 0 |};
@@ -273,10 +321,6 @@ Definition reopen (keep_cache : bool) (s : kstate) : kstate :=
   boot (if keep_cache then s_cache s else []) (s_disk s) (s_ckpts s) (s_view s).
 (* the checkpoint directory opened as a store of its own (same checkpoint directories around it) *)
 Definition open_ckpt (ck : ckpt) (cks : list (N * ckpt)) : kstate := boot [] (ck_disk ck) cks (ck_view ck).
-
-Definition empty_disk : disk :=
-  {| d_tables := []; d_man := {| mf_tables := []; mf_next := 1; mf_log := 0; mf_seq := 0 |}; d_wal := [] |}.
-Definition kinit : kstate := boot [] empty_disk [] [].
 
 (* ---- checkpoint: flush everything FIRST, then copy the tables of the in-memory manifest, the manifest
         directory, and an EMPTY wal directory ---- *)
@@ -288,8 +332,6 @@ Definition ckpt_copy (c : N) (s : kstate) : kstate :=
 Definition checkpoint (c : N) (s : kstate) : kstate := ckpt_copy c (flush_all s).
 
 (* ---- restore: the generated step list ---- *)
-Definition wal_ensure (w : N) (wal : list (N * list cver)) : list (N * list cver) :=
-  match aget w wal with Some _ => wal | None => wal ++ [(w, [])] end.
 Definition restore_max (s : kstate) : N := N.max (mf_seq (m_man (s_mem s))) (max_seq (m_active (s_mem s))).
 Definition rstep_apply (ck : ckpt) (s : kstate) (r : rstep) : kstate :=
   let m := s_mem s in
@@ -305,9 +347,14 @@ Definition rstep_apply (ck : ckpt) (s : kstate) (r : rstep) : kstate :=
     set_mem (set_disk s {| d_tables := d_tables d; d_man := d_man d; d_wal := wal_ensure w (d_wal d) |})
             {| m_man := m_man m; m_active := m_active m; m_active_wal := m_active_wal m; m_imms := m_imms m; m_wal := w |}
   | RReplay =>
-    match flat_map snd (filter (fun e => N.leb (mf_log (m_man m)) (fst e)) (d_wal d)) with
+    (* the same recovery as at open; nothing replayed: nothing changes; the manifest file is written by a flush only *)
+    let segs := replayed (mf_log (m_man m)) (d_wal d) in
+    let r := recover (d_tables d) (m_man m) segs in
+    match segs with
     | [] => s
-    | all => set_mem s {| m_man := m_man m; m_active := all; m_active_wal := m_active_wal m; m_imms := m_imms m; m_wal := m_wal m |}
+    | _ :: more =>
+      set_mem (set_disk s {| d_tables := fst (fst r); d_man := match more with [] => d_man d | _ => snd (fst r) end; d_wal := d_wal d |})
+              {| m_man := snd (fst r); m_active := snd r; m_active_wal := m_active_wal m; m_imms := m_imms m; m_wal := m_wal m |}
     end
   | RSetWalNo => set_mem s {| m_man := m_man m; m_active := m_active m; m_active_wal := m_wal m; m_imms := m_imms m; m_wal := m_wal m |}
   | RSeqSet =>
